@@ -91,6 +91,8 @@ fn segments(line: &str) -> Result<Vec<Seg>, String> {
 
 #[derive(Debug, Clone)]
 struct NumLine {
+    /// display width of everything up to and including the bar and its separating space
+    gutter_w: usize,
     number: usize,
     text: String,
     /// text of the S-tagged parts, and the width of the text before the first of them
@@ -99,6 +101,7 @@ struct NumLine {
 }
 #[derive(Debug, Clone)]
 struct MarkLine {
+    gutter_w: usize,
     col: usize,
     marker: String,
     /// index into numbered lines: how many numbered lines came before this marker line
@@ -125,6 +128,9 @@ fn parse_output(out: &str) -> Result<Parsed, String> {
             Seg::Num(n) => n.trim().parse::<usize>().ok(),
             _ => None,
         });
+        let gutter_w: usize = segs[..=bar].iter().map(|s| match s {
+            Seg::Plain(t) | Seg::Num(t) | Seg::SpanText(t) | Seg::Marker(t) => width(t),
+        }).sum::<usize>() + 1;
         // content after the bar; it begins with exactly one separating space unless empty
         let mut rest: Vec<Seg> = segs[bar + 1..].to_vec();
         if let Some(Seg::Plain(t)) = rest.first_mut() {
@@ -153,7 +159,7 @@ fn parse_output(out: &str) -> Result<Parsed, String> {
                     _ => return Err(format!("unexpected tag in numbered line {:?}", raw)),
                 }
             }
-            p.lines.push(NumLine { number, text, span_text, before_span_w: before.unwrap_or(0) });
+            p.lines.push(NumLine { gutter_w, number, text, span_text, before_span_w: before.unwrap_or(0) });
         } else if rest.iter().any(|s| matches!(s, Seg::Marker(_))) {
             let mut col = 0;
             let mut marker = String::new();
@@ -174,7 +180,7 @@ fn parse_output(out: &str) -> Result<Parsed, String> {
                     _ => return Err("unexpected tag in marker line".into()),
                 }
             }
-            p.marks.push(MarkLine { col, marker, after: p.lines.len() });
+            p.marks.push(MarkLine { gutter_w, col, marker, after: p.lines.len() });
         } else {
             let t: String = rest.iter().map(|s| if let Seg::Plain(t) = s { t.clone() } else { String::new() }).collect();
             if t.trim() == "..." {
@@ -354,6 +360,15 @@ fn check_case(s: &str, w: &What, k4b: bool) -> Result<(), String> {
     }
     if parsed.lines.is_empty() {
         return Err(format!("no numbered line shown: {:?}", plain));
+    }
+    // a marker points at a cell of a numbered line only if both lines have the same gutter
+    for m in &parsed.marks {
+        let target = if m.after == 0 { parsed.lines.first() } else { parsed.lines.get(m.after - 1) };
+        if let Some(t) = target {
+            if !m.marker.is_empty() && t.gutter_w != m.gutter_w {
+                return Err(format!("the marker line's gutter is {} cells wide, that of line {} is {}: the marker does not stand under / over the cell it is meant for", m.gutter_w, t.number, t.gutter_w));
+            }
+        }
     }
     let line_of = |o: usize| -> usize {
         // 1-based index of the line holding offset o (o < len)
@@ -591,7 +606,7 @@ pub fn run(args: &Args) -> i32 {
     if violation.is_none() {
         let cases = tier.pick(4000u32, 60000u32);
         let mut r = runner(sub_seed(seed, "C14"), cases);
-        let alphabet: [&str; 12] = ["a", "\n", "b\n", "中", "é", "\t", "\r\n", "xy", "\n\n", " ", "\r", "\u{7f}"];
+        let alphabet: [&str; 16] = ["a", "\n", "b\n", "中", "é", "\t", "\r\n", "xy", "\n\n", " ", "\r", "\u{7f}", "\u{bf}", "\u{ffff}", "\u{10ffff}", "\u{1f}"];
         let strat = (prop::collection::vec(any::<u8>(), 0..260), any::<u16>(), any::<u16>(), any::<bool>(), 0usize..3);
         let cell = std::cell::RefCell::new((&mut ev, &mut st));
         let res = r.run(&strat, |(tape, i, j, is_pos, pad)| {
@@ -620,6 +635,24 @@ pub fn run(args: &Args) -> i32 {
         ev.frozen = false;
         if let Err(proptest::test_runner::TestError::Fail(reason, _)) = res {
             violation = serde_json::from_str(&reason.message().to_string()).ok();
+        }
+    }
+    // gutter widths: positions and spans on and around lines 10, 100 and 1000
+    if violation.is_none() {
+        let text: String = (0..1003).map(|i| format!("l{}\n", i % 7)).collect();
+        let starts: Vec<usize> = std::iter::once(0).chain(text.match_indices('\n').map(|(i, _)| i + 1)).collect();
+        for line in [8usize, 9, 10, 98, 99, 100, 998, 999, 1000] {
+            let a = starts[line] + 1; // second character of the 0-based line
+            for w in [What::Pos(a), What::Span(a, a + 1), What::Span(a, starts[line + 1] + 1), What::Span(starts[line - 1] + 1, a + 1)] {
+                if let Some(v) = run_case(&text, &w, &mut ev, &mut st) {
+                    violation = Some(v);
+                    break;
+                }
+                ev.count("gutter_width_cases");
+            }
+            if violation.is_some() {
+                break;
+            }
         }
     }
     // deterministic KNOWN-FINDING lines: the stored reproducers are executed themselves
